@@ -58,7 +58,8 @@ func build() *tworld {
 	tw := &tworld{w: w}
 	tw.r, tw.x, tw.y, tw.u = mk("R", 0, st), mk("X", 1, config.Store{}), mk("Y", 2, config.Store{}), mk("U", 3, config.Store{})
 	for i, n := range []*kit.Node{tw.x, tw.y} {
-		_, _, err := w.Connect(tw.r, n, m.SwitchLabel(11+i), m.SwitchLabel(21+i), 5)
+		// X's link has a 1-byte label at R, Y's link a 2-byte label.
+		_, _, err := w.Connect(tw.r, n, m.SwitchLabel(11+i*289), m.SwitchLabel(21+i), 5)
 		must(err)
 		must(kit.KeySessions(n, tw.r))
 	}
@@ -283,7 +284,7 @@ func deviations() []deviation {
 		add("dst", "dst="+name, func(tw *tworld, rc *recipe) { rc.dst = addrAlphabet(tw)[name] })
 	}
 	swb := map[string][]byte{
-		"zero": {0}, "zeros": {0, 0, 0, 0}, "to-Y": {12, 0, 0}, "dangling": {99, 0, 0}, "no-room": {12}, "two-byte-no-room": {0xac, 0x02},
+		"zero": {0}, "zeros": {0, 0, 0, 0}, "to-Y": {0xac, 0x02, 0, 0, 0}, "to-X": {11, 0, 0, 0}, "dangling": {99, 0, 0}, "no-room": {12}, "two-byte-no-room": {0xac, 0x02},
 		"full-255": append(make([]byte, 0, 255), func() []byte {
 			b := make([]byte, 255)
 			for i := range b {
@@ -482,7 +483,7 @@ func (tw *tworld) deliver(rc recipe) (panics []string, err error) {
 func TestC13(t *testing.T) {
 	env := kit.GetEnv()
 	rep := kit.NewReport("C13", env)
-	rep.Rule = "(1) raw bytes: every byte string of length 0..2, every prefix of 14 valid frames, each valid frame + 1 byte, through parser, switch and router of a real router; link reader: every 2-byte string as the first bytes of a connection, garbage (0/exact/short/long following bytes) at each of the 3 handshake read positions, a sweep of ~700 length-prefix values x {exact, short} after the handshake; (2) structured: 14 valid base frames (every ping type and code, traffic, session types) x all single and all pairs (different fields) of ~190 deviations over frame fields (version, TTL, flow, all interesting type values, 9 sources, 8 destinations, 10 switch blocks, sealing mode, receive link), ping framing (version, header length, type, code, follow-up, id, identity fields, raw header encodings), 25 CBOR bodies, inner packets, appendix garbage and signed hop chains (depth up to 56, self reference, loop, 3-byte labels) - always re-sealed with the authenticated peer's real keys; (3) cases are delivered back to back to long-lived routers (worlds are renewed every 40 cases or after a panic), so every case also runs from the state its predecessors left; non-trivial = every case except the 14 unmodified bases; distinct = distinct (base, deviation set)"
+	rep.Rule = "(1) raw bytes: every byte string of length 0..2, every prefix of 14 valid frames, each valid frame + 1 byte, through parser, switch and router of a real router; link reader: every 2-byte string as the first bytes of a connection, garbage (0/exact/short/long following bytes) at each of the 3 handshake read positions, a sweep of ~700 length-prefix values x {exact, short} after the handshake; (2) structured: 14 valid base frames (every ping type and code, traffic, session types) x all single and all pairs (different fields) of ~190 deviations over frame fields (version, TTL, flow, all interesting type values, 9 sources, 8 destinations, 10 switch blocks, sealing mode, receive link), ping framing (version, header length, type, code, follow-up, id, identity fields, raw header encodings), 25 CBOR bodies, inner packets, appendix garbage and signed hop chains (depth up to 56, self reference, loop, 3-byte labels) - always re-sealed with the authenticated peer's real keys; (2b) request/response protocols started by the router itself (pong, hello) with the peer's genuine response delivered 1-3 times, also after clock steps and interleaved with a second exchange; (3) cases are delivered back to back to long-lived routers (worlds are renewed every 40 cases or after a panic), so every case also runs from the state its predecessors left; non-trivial = every case except the 14 unmodified bases; distinct = distinct (base, deviation set)"
 	rep.Assumptions = []string{
 		"a panic is observed exactly where production observes it: recovered by the worker wrapper of the module manager (ErrWorkerPanic) or as a worker-panic alert for link workers",
 		"the double-return guard of the frame pool panics, so 'each frame buffer released at most once' is observed as absence of that panic",
@@ -593,6 +594,7 @@ func TestC13(t *testing.T) {
 		flush()
 	}
 
+	protocolRepeats(t, rep, env, &evals, &nontrivial, &transitions, outcomes, mine)
 	rawBytes(t, rep, env, &evals, &nontrivial, &transitions, outcomes, mine)
 	linkReader(t, rep, env, &evals, &nontrivial, &transitions, outcomes, mine)
 
